@@ -712,7 +712,7 @@ package kcache
   at call(Stop).after set tstate := (ite $result 0 tstate)
   at call(Reset) set tstate := 1
   at recv(C) assume [timer-semantics-a-timer-case-fires-only-when-a-value-is-or-will-be-available] (=> (not $bare) (= tstate 1))
-  at recv(C) assert [opt:bare-receive-from-the-timer-finds-a-value] (=> $bare (= tstate 1))
+  at recv(C) assert [bare-receive-from-the-timer-finds-a-value] (=> $bare (= tstate 1))
   at recv(C) set tstate := 0
   loop 1 inv [tick-pending-xor-timer-running] (and (= (not (= {nextch} vnil)) (= tstate 0)) (or (= tstate 0) (= tstate 1))
         (or (= {nextch} vnil) (= {nextch} {t.nextch})) (not (= {timer} vnil)) (not {closed(t.donech)}))
